@@ -26,7 +26,7 @@ def run(ctx):
                        "shortest path + one edge for every (state,op) of the TLC-dumped graph, short histories, walks, and TLC-simulated "
                        "behaviours of up to 12 events (in-order, late and shuffled timestamps; integer / float / string / missing field); "
                        "after every event: acceptance, ordered member ids, start/end and count/sum/min/max/avg of every window or buffer; "
-                       "WindowedStream::new (batch tumbling) cross-checked on everything offered so far")
+                       "WindowedStream::new (batch tumbling) cross-checked on everything offered so far; L1 also checks RetentionShape (window list strictly ordered and within the cap, no empty or over-full window, buffers within cap and in arrival order)")
     ctx.assumptions += ["whole-millisecond durations {1,2,3,5}; the alpha node's timestamps are offset by a base divisible by all durations",
                         "window retention (max_windows, expiry by event time) is modelled as the code does it and is not part of the invariant",
                         "the alpha node's invariants are asserted immediately after an accepted event (it does not clean up on rejected events or clock ticks)"]
